@@ -47,6 +47,8 @@ def _nontrivial(fs, ex):
 
 def check(case, rec):
     from nptdms import TdmsFile, TdmsWriter
+    if 'graph' in case:
+        return check_scaled(case, rec)
     fs = case['fs']
     if case.get('picks') is not None:
         phys, _plans = P.encode_with_plans(fs, lambda i, alts: P.nth_plan(alts, case['picks'][i]))
@@ -138,6 +140,39 @@ def check(case, rec):
         rec.violation('copy:structure', str(e)[:300])
 
 
+def check_scaled(case, rec):
+    """source with NI_Scale definitions: the copy must scale to exactly the same data (and keep the raw values)"""
+    from nptdms import TdmsFile, TdmsWriter
+    from props.C13 import build_file
+    from vf.observe import le_bytes
+    fs, graph = build_file(case)
+    data, _i, _l = encode_file(fs)
+    rec.nontrivial(True)
+    rec.label('scaled_source', 'raw=' + case['type'], 'level=' + case['level'])
+    out = io.BytesIO()
+    ok, _r = rec.guard('defragment', lambda: TdmsWriter.defragment(io.BytesIO(data), out))
+    if not ok:
+        return
+    try:
+        a = TdmsFile.read(io.BytesIO(data))['g']['c']
+        b = TdmsFile.read(io.BytesIO(out.getvalue()))['g']['c']
+        sa, sb = np.asarray(a[:]), np.asarray(b[:])
+        ra, rb = np.asarray(a.read_data(scaled=False)), np.asarray(b.read_data(scaled=False))
+    except Exception as e:      # noqa
+        rec.violation('copy:scaled:raised', describe_exc(e), key=exc_key(e))
+        return
+    if le_bytes(ra) != le_bytes(rb) or (len(ra) and ra.dtype.newbyteorder('=') != rb.dtype.newbyteorder('=')):
+        rec.violation('copy:values', 'raw values of the copy %r differ from the source %r' % (rb[:4], ra[:4]))
+    if le_bytes(sa) != le_bytes(sb) or (len(sa) and sa.dtype.newbyteorder('=') != sb.dtype.newbyteorder('=')):
+        rec.violation('copy:scaled', 'scaled data of the copy %r (%s) differs from the source %r (%s)' % (
+            sb[:4], sb.dtype, sa[:4], sa.dtype))
+
+
+def _scaled_sources():
+    from props.C13 import cases as c13_cases
+    return c13_cases(noop=True)
+
+
 def _wrap(fs_strategy, with_picks=False):
     @st.composite
     def cases(draw):
@@ -166,7 +201,9 @@ def jobs(tier):
     if tier == 'quick':
         return [Job('fragmented', 'hyp', lambda: _wrap(_fragmented()), n=1200),
                 Job('empty_and_untyped', 'hyp', lambda: _wrap(_empties()), n=600),
-                Job('inheritance_plans', 'hyp', lambda: _wrap(history(max_segments=7, max_channels=4), True), n=600)]
+                Job('inheritance_plans', 'hyp', lambda: _wrap(history(max_segments=7, max_channels=4), True), n=600),
+                Job('scaled_sources', 'hyp', _scaled_sources, n=800, check=check_scaled)]
     return [Job('fragmented', 'hyp', lambda: _wrap(_fragmented()), n=40000),
             Job('empty_and_untyped', 'hyp', lambda: _wrap(_empties()), n=15000),
-            Job('inheritance_plans', 'hyp', lambda: _wrap(history(max_segments=7, max_channels=4), True), n=15000)]
+            Job('inheritance_plans', 'hyp', lambda: _wrap(history(max_segments=7, max_channels=4), True), n=15000),
+            Job('scaled_sources', 'hyp', _scaled_sources, n=25000, check=check_scaled)]
